@@ -7,6 +7,9 @@ spec/ContextOps.tla     the machine: one call per behaviour, one action per loop
                         GetAfterStrToDict, FormatExact, CanonInjective, OnlyDocumentedExceptions, QueriesPure
 spec/Trace_ContextOps.tla  validation of recorded calls (seeded random, repository test-suite)
 
+Elements are applied to flows: the same UpdateContext / DeleteContext / SetContext instance (and a second
+one built from the same argument objects) runs over three values; spec: ElementStateless, FlowIsFunction.
+
 S2C: every (call, context) of the bounded model is exported with its allowed outcomes and executed on
 get_recursively (list / dotted string / both dictionary notations), contains, str_to_dict, str_to_list,
 format_context, to_string, UpdateContext, DeleteContext, format_update_with (and SetContext), with the
@@ -897,7 +900,7 @@ def run(ctx):
                 ctx.mc("ContextOps", "ContextOps_thorough_wide.cfg")     # three keys (design level only)
             f_more = jobs.submit(more)
         misc(ctx, fns, rp.fails)
-        nval = 3 if ctx.thorough else 2
+        nval = 2
         for fut in exports:
             recs = fut.result()
             ctx.sample({"spec_behaviour": recs[(2 * len(recs)) // 3]})
